@@ -28,6 +28,49 @@ CHECKS = {
              'case is replayed through to_list, to_str and TextBlock.indent with a header.',
         design='3/C18',
         note=BASE_TRUST + 'Glyph clauses assume non-empty glyphs without leading/trailing whitespace.'),
+    'C05': dict(
+        technique='TLA+ model of documents and parsing (DznDoc.tla) checked with TLC; exhaustive replay of TLC-built '
+                  'documents through the real parser with a full-projection comparison; TLC trace validation of random documents',
+        text='DznDoc.tla models a Dezyne document as a token sequence and Parse as a fold with a namespace stack (fqn '
+             'formation, nine ordered containers, hoisting of interface-local types, inert skips); the C05 laws are TLC '
+             'invariants; every balanced document of the bounded space is written to JSON by an independent writer, parsed '
+             'by DznJsonAst and the complete projection of FileContents (every field, in order) compared with Parse(doc); '
+             'random larger documents with random payloads are validated by DznDocTrace.tla.',
+        design='3/C05',
+        note=BASE_TRUST + 'Payload contents (ports, events, formals, ...) are opaque to the model; the harness unparser decides '
+             'that the parsed payload equals the written one.'),
+    'C14': dict(
+        technique='TLA+ model (Scoping.tla) with LookupLaw/notation laws as TLC invariants; exhaustive replay of enumerated '
+                  '(declarations, name, scope) cases and identifier strings into find_fqn/find_any/scope_resolution_order/'
+                  'namespaceids_t; TLC trace validation of random lookups',
+        text='Scoping.tla defines the scope chain, resolution order, FindFqn, FindAny and the three notations; the property '
+             'is the TLC invariant LookupLaw over every name x scope x subset of relevant declarations (identifiers chosen so '
+             'that one is a textual prefix of another), and HandedOutLaw/NotationLaw over every identifier-candidate string; '
+             'every case is executed on the real functions with an environment built by the real parser.',
+        design='3/C14',
+        note=BASE_TRUST + 'Results are compared as multisets (listing order is not part of the property).'),
+    'C15': dict(
+        category='fault_enumeration',
+        technique='fault catalogue and verdict function as a TLA+ module (ParserFaults.tla) enumerated by TLC; every fault '
+                  'class instantiated at every matching JSON node and executed on the real parser; outcomes validated by TLC '
+                  'in trace mode',
+        text='ParserFaults.tla holds the grammar table of the JSON AST, the fault classes (delete/retype/retag every key and '
+             'class tag, bad identifiers, empty ids, bad words, out-event rules, non-dict elements) and Expected/Allowed; TLC '
+             'enumerates the catalogue, the harness applies each class at every matching node of its base documents, plus '
+             'random fault pairs, random subtree replacements and arbitrary JSON values, and TLC validates that every outcome '
+             'is success or a documented error consistent with the verdict.',
+        design='3/C15',
+        note=BASE_TRUST + 'This is a property of exception classes over inputs; TLA+ supplies the fault space and the verdict, '
+             'the decision comes from running the parser on every enumerated input.'),
+    'C16': dict(
+        technique='TLA+ life-cycle model (ParserLifecycle.tla) checked with TLC; every enumerated call history replayed on '
+                  'real DznJsonAst instances; TLC trace validation of random life cycles (DznDocTrace.tla)',
+        text='ParserLifecycle.tla: instances x documents, actions New/Load/Process; the result of Process(i) is the parse of '
+             "instance i's own document in every reachable state (ProcessPure, Isolated are TLC action properties); all "
+             'histories of <=5/6 calls over 2 instances and 3 documents (one refused) are replayed with load_file through '
+             'temp files and every process() result compared with the model.',
+        design='3/C16',
+        note=BASE_TRUST),
 }
 
 NOT_YET = {}
